@@ -102,6 +102,18 @@ func bridge(f interface{}) externalFn {
 	ft := fv.Type()
 	return func(fr *frame, args []value) value {
 		sig := fr.fn.Signature
+		defer func() {
+			if r := recover(); r != nil {
+				if u, ok := r.(unsupported); ok {
+					where := ""
+					for f, n := fr.caller, 0; f != nil && n < 6; f, n = f.caller, n+1 {
+						where += " <- " + f.fn.String()
+					}
+					panic(unsupported(string(u) + " (" + fr.fn.String() + where + ")"))
+				}
+				panic(r)
+			}
+		}()
 		in := make([]reflect.Value, 0, len(args))
 		for i, a := range args {
 			var t reflect.Type
